@@ -112,7 +112,7 @@ class JSONValidator:
             if depth > self.max_depth:
                 return False, f"JSON depth exceeds limit ({depth} > {self.max_depth})"
             return True, None
-        except json.JSONDecodeError as e:
+        except ValueError as e:  # JSONDecodeError, or int digit-limit overflow
             return False, f"Invalid JSON: {e}"
         except RecursionError:
             return False, f"JSON nesting too deep to parse (limit {self.max_depth})"
